@@ -58,3 +58,8 @@ void pqfinish(void) {}
 extern char sbuf[16]; extern unsigned g_slen; extern int g_getinfo;
 int getinfo(stralloc *sa, datetime_sec *dt, unsigned long id) { if (ND_BOOL()) return 0; g_getinfo = 1; sa->s = sbuf; sa->len = g_slen; sa->a = 16; *dt = 0; return 1; }
 #endif
+#ifdef P_TODO
+extern int g_verdict, g_pendingT, g_fail_seen;
+void cleandied(void) {}
+int rewrite(char *recip) { V_ASSERT(g_pendingT, "C10: supporting: rewrite is applied to recipient records"); g_verdict = ND_INT(); if (g_verdict != 1 && g_verdict != 2) { g_verdict = 0; g_fail_seen = 1; } return g_verdict; }
+#endif
